@@ -338,6 +338,9 @@ def run():
     import translate_hook
 
     facts["translated_hook"] = translate_hook.run(facts.get("hook", {}).get("importRule"))
+    import translate_config
+
+    facts["translated_config"] = translate_config.run()
     return facts
 
 
